@@ -59,15 +59,21 @@ def prompt_loop(res, rnd):
         it = iter(cmds)
         prompts = [0]
 
+        hit_eof = [0]
+
         def inp(prompt):
             prompts[0] += 1
-            return next(it)
+            try:
+                return next(it)
+            except StopIteration:
+                hit_eof[0] = 1
+                raise EOFError()
         ui = TerminalUI(ctrl, ctrl, inp)
-        eof = 0
         try:
             ui.run_until_stopped()
-        except StopIteration:
-            eof = 1
+        except EOFError:
+            pass
+        eof = hit_eof[0]
         res.evaluations += 1
         got = [prompts[0], eof]
         if m == ['oom']:
